@@ -1,17 +1,17 @@
-\* scratch
+\* C18 thorough (replay 4; TraceparentFilter alone): 1 thread, <= 2 spans, <= 3 frames, nesting <= 3, all seven headers, nested header pushes (mismatched trace, same trace / other caller span); every transition replayed.
 SPECIFICATION Spec
 CONSTANTS
     NThreads = 1
-    MaxSpans = 3
-    MaxFrames = 4
+    MaxSpans = 2
+    MaxFrames = 3
     MaxTasks = 0
     MaxDepth = 3
     Headers <- MC_HeadersAll
     InSampled = FALSE
     SnapshotOnPush = TRUE
     WithLazy = FALSE
-    WithCurrent = FALSE
-    Emit = FALSE
+    WithCurrent = TRUE
+    Emit = TRUE
 VIEW tview
 INVARIANTS SamplerOncePerTrace DecisionGoverns UnsampledSilent SampledConsistent NoTraceNoParent FrameCarries
 PROPERTIES Restored
